@@ -480,6 +480,13 @@ Definition e2e_labels (service : Z) (calls : list e2e_call) : list op :=
              | None => []
              end)) calls).
 
+(* compact literals for the generated case files (-1 stands for python's None in a source field) *)
+Definition oz (z : Z) : option Z := if z =? -1 then None else Some z.
+Definition src (a b c d : Z) : source := (oz a, oz b, oz c, oz d).
+Definition kz (l : list Z) : key := map oz l.
+Definition qz (n d : Z) : Q := Qmake n (Z.to_pos d).
+Definition qi (n : Z) : Q := inject_Z n.
+
 Inductive case :=
 | CRun (cfg : config) (ops : list op) (expected : list obs)
 | CE2E (cfg : config) (service : Z) (calls : list e2e_call) (tail : list op) (expected : list obs)
